@@ -21,42 +21,8 @@ def check(ctx):
     F = ctx.F
     P1 = ('param', 1)
     obscure.check_sinks(ctx, 'C13.1', want=('compress',))
-    # ---- compress(): arms
-    b = F.method1('Envelope', 'compress')
-    if b is None:
-        ctx.lost('C13.3', 'Envelope::compress')
-    else:
-        tb = TermBuilder(F, b)
-        sw = [x for x in switch_on(tb, b, lambda d: d[0] == 'discr' and m_call(d[1], name='case', self_suffix='Envelope') is not None)]
-        if len(sw) != 1:
-            ctx.lost('C13.3', 'case dispatch in compress')
-        else:
-            sb = sw[0][0]
-            regs = arm_regions(b, sb)
-            variants = adt_variants(F, CASE)
-            sinks = [bi for bi, c, t in b.calls() if c is not None and c.name == 'from_uncompressed_data']
-            tvals = dict((v, bb) for v, bb in b.term(sb)['targets'])
-            for idx, vname in enumerate(variants):
-                if idx not in tvals:
-                    continue   # handled by the default (compressing) arm
-                tgt, reg = regs[idx]
-                rds = ret_defs(tb, reg)
-                has_sink = any(s in reg for s in sinks)
-                if vname == 'Compressed':
-                    vals = [strip_sites(detry(x[2])) for x in rds]
-                    if len(vals) == 1 and vals[0][0] == 'agg' and vals[0][2] == 'Ok' and vals[0][3][0] == P1 and not has_sink:
-                        ctx.ok('C13.3', ctx.site(b, tgt), 'already compressed -> Ok(self) (idempotent)')
-                    else:
-                        ctx.fail('C13.3', ctx.site(b, tgt), 'the already-compressed arm does not return self unchanged: %s' % [fmt(v) for v in vals], key='C13.3')
-                elif vname in ('Encrypted', 'Elided'):
-                    errs = [x for x in rds if x[2][0] == 'agg' and x[2][2] == 'Err']
-                    if errs and len(errs) == len(rds) and not has_sink:
-                        ctx.ok('C13.4', ctx.site(b, tgt), 'arm %s refuses with an error' % vname)
-                    else:
-                        ctx.fail('C13.4', ctx.site(b, tgt), 'arm %s of compress is not a refusal' % vname, key='C13.4|' + vname)
-            for vname in ('Compressed', 'Encrypted', 'Elided'):
-                if vname in variants and variants.index(vname) not in tvals:
-                    ctx.fail('C13.3' if vname == 'Compressed' else 'C13.4', ctx.site(b, sb), 'compress has no dedicated arm for %s' % vname, key='C13.arm|' + vname)
+    # ---- compress(): per-case table (finite valuation of the case of self)
+    check_compress_table(ctx, 'C13.3', 'C13.4')
     # ---- uncompress()
     u = F.method1('Envelope', 'uncompress')
     if u is None:
@@ -161,3 +127,42 @@ def check(ctx):
                 ctx.ok('C13.6', ctx.site(mb, bi, si), '%s: self or replace_subject(self, %s(subject(self)))' % (name, f), sample=fmt(v))
             else:
                 ctx.fail('C13.6', ctx.site(mb, bi, si), '%s returns %s' % (name, fmt(v)), key='C13.6|' + name)
+
+
+def check_compress_table(ctx, inst_idem, inst_refuse):
+    F = ctx.F
+    P1 = ('param', 1)
+    b = F.method1('Envelope', 'compress')
+    if b is None:
+        ctx.lost(inst_idem, 'Envelope::compress')
+        return
+    tb = TermBuilder(F, b)
+    variants = adt_variants(F, CASE)
+    atoms = find_terms(b, tb, lambda x: x[0] == 'discr' and m_call(x[1], name='case', self_suffix='Envelope') is not None and strip_sites(m_call(x[1], name='case', self_suffix='Envelope')[0]) == P1)
+    if len(atoms) != 1:
+        ctx.fail(inst_idem, ctx.site(b), 'compress() does not decide on the case of self alone (it must be idempotent for a Compressed element, refuse Encrypted/Elided ones and compress every other case as a whole)', key=inst_idem + '|atoms')
+        return
+    for idx, vname in enumerate(variants):
+        reach = reach_under(b, tb, {atoms[0]: idx})
+        outs = set()
+        for bi, si, t in ret_defs(tb):
+            if bi not in reach:
+                continue
+            st = strip_sites(detry(t))
+            if m_call(st, name='from_residual') is not None:
+                continue
+            if st[0] == 'agg' and st[2] == 'Err':
+                outs.add('Err')
+            elif st[0] == 'agg' and st[2] == 'Ok' and st[3][0] == P1:
+                outs.add('self')
+            elif st[0] == 'agg' and st[2] == 'Ok' and contains(st, lambda x: x[0] == 'call' and call_name(x) == 'from_uncompressed_data'):
+                outs.add('compressed')
+            else:
+                outs.add('other:' + fmt(st)[:80])
+        want = {'self'} if vname == 'Compressed' else {'Err'} if vname in ('Encrypted', 'Elided') else {'compressed'}
+        inst = inst_idem if vname == 'Compressed' else inst_refuse if vname in ('Encrypted', 'Elided') else inst_idem + '/other'
+        if outs == want:
+            if vname in ('Compressed', 'Encrypted', 'Elided'):
+                ctx.ok(inst, ctx.site(b), 'compress() on a %s element: %s' % (vname, sorted(outs)))
+        else:
+            ctx.fail(inst, ctx.site(b), 'compress() on a %s element gives %s, expected %s' % (vname, sorted(outs), sorted(want)), key='%s|%s' % (inst, vname))
